@@ -9,7 +9,8 @@ EXPLANATION = (
     "format_function_body / both Call arms apply them; should_omit_string_parens / should_omit_table_parens; the "
     "decision structure of format_function_args (keep-as-written iff Input or (omit and not obscure); parentheses are "
     "dropped only if !Input, omit, one argument of the right kind, not obscure; the sugar node is built from the "
-    "call's own argument) and FunctionArgs is constructed nowhere else. Not decided: that every layout path reaches "
+    "call's own argument) and FunctionArgs is constructed nowhere else; every path of format_token's StringLiteral arm on "
+    "which the input quote is not known to be Brackets takes the output quote from get_quote_to_use. Not decided: that every layout path reaches "
     "format_function_args with the right next-node information (value dependent).")
 ASSUMPTIONS = ["README semantics of the option values as restated in r_opt.py",
                "rustc MIR and Instance::try_resolve are trusted"]
